@@ -320,7 +320,9 @@ Fixpoint is_dirty (fuel : nat) (runid : Z) (cyc : list fid) (w : world) (c : chk
   match fuel with
   | O => EFuel
   | S fuel' =>
-    if existsb (Nat.eqb f) seen then Ret (VCycle, w, c, []) else
+    (* recorded rows that lead back to a file in mid-walk prove nothing about the
+       scripts (fix F78): dirty, not an error *)
+    if existsb (Nat.eqb f) seen then Ret (VDirty, w, c, []) else
     match r_failed r with
     | Some _ => Ret (VDirty, w, c, [])
     | None =>
